@@ -251,6 +251,14 @@ def rule_schema(ctx: Ctx, out: Collector) -> None:
         raise AnalysisError('GraphConfig.as_dict not found')
     ad = gc.methods['as_dict']
     ret = sym.simple_return(ad)
+    if ret is None or isinstance(ret, ast.Name):
+        # the single return hands back a local that was assigned once: `d = asdict(self); return d`
+        rets = [n for n in ast.walk(ad.node) if isinstance(n, ast.Return) and n.value is not None]
+        if len(rets) == 1 and isinstance(rets[0].value, ast.Name):
+            vals = [a.value for a in ast.walk(ad.node) if isinstance(a, (ast.Assign, ast.AnnAssign)) and a.value is not None
+                    and any(isinstance(x, ast.Name) and x.id == rets[0].value.id for x in (a.targets if isinstance(a, ast.Assign) else [a.target]))]
+            if len(vals) == 1:
+                ret = vals[0]
     cons = f'{mod.name}::GraphConfig.as_dict::is dataclasses.asdict(self)'
     if isinstance(ret, ast.Call) and (dotted(ret.func) or '').split('.')[-1] == 'asdict' and len(ret.args) == 1 and unparse(ret.args[0]) == 'self':
         out.ok('VW-4', cons, p.loc(ad, ad.node), 'asdict(self)')
